@@ -476,6 +476,36 @@ def dual_norm(ctx):
             ctx.fail(cid, 'DualQuaternion.norm', 'mismatch', P, 'norm of a unit dual quaternion is (%r, %r)' % (a, bq))
 
 
+def dual_symbolic(ctx):
+    """"hold exactly (symbolically)" for the dual-number extension: the 8x8 matrix form times the coefficient vector equals the product, with the
+    real part, the dual part, or both holding SymPy symbols (the entries of the difference simplify to exactly 0)"""
+    import sympy
+    import spatialmath as sm
+    x, y, z, w = sympy.symbols('x y z w', real=True)
+    Q = sm.Quaternion
+    mixes = {'num/sym': (lambda: Q([1, 2, 3, 4]), lambda: Q([x, y, z, w])), 'sym/num': (lambda: Q([x, y, z, w]), lambda: Q([1, 2, 3, 4])),
+             'sym/sym': (lambda: Q([x, 1, z, 2]), lambda: Q([y, w, 0, 1])), 'float/sym': (lambda: Q([0.5, -1.5, 2.0, 0.25]), lambda: Q([x, 0, z, 1]))}
+    for mn, (mr, md) in mixes.items():
+        cid = 'C12/dual/symbolic/%s' % mn
+        if not ctx.want(cid):
+            continue
+        ctx.case(cid, key=cid)
+        P = dict(law='matrix', mix=mn, cls='DualQuaternion')
+        bq = sm.DualQuaternion(Q([0.5, -1, 2, 1]), Q([2, 0, 1, -1]))
+        ok, r = call(lambda: (lambda a: (a.matrix(), (a * bq).vec))(sm.DualQuaternion(mr(), md())))
+        if not ok:
+            ctx.fail(cid, 'DualQuaternion.matrix', 'raises:' + type(r).__name__, P, 'matrix() / product of a dual quaternion with %s parts raised %r' % (mn, r))
+            continue
+        M, pv = r
+        try:
+            d = [sympy.simplify(sympy.sympify(e)) for e in (np.asarray(M, dtype=object) @ np.asarray(bq.vec, dtype=object) - np.asarray(pv, dtype=object)).ravel()]
+            bad = [str(e) for e in d if not (e == 0 or (e.is_number and abs(float(e)) < 1e-12))]
+        except Exception as e:
+            bad = ['cannot be evaluated: %r' % (e,)]
+        if np.shape(M) != (8, 8) or bad:
+            ctx.fail(cid, 'DualQuaternion.matrix', 'mismatch', P, 'matrix(a) b - a*b does not vanish for %s parts: %s' % (mn, bad[:3]))
+
+
 def dual_mixed(ctx):
     """products in which a UnitDualQuaternion object meets a general DualQuaternion (either side) or another unit one: the value is
     the dual-number Hamilton product of the two 8-vectors whatever the classes of the operands, and the 8x8 matrix form agrees"""
@@ -609,6 +639,7 @@ def run_shard(ctx, shard):
         dual_basis(ctx)
     elif k == 'dualmixed':
         dual_mixed(ctx)
+        dual_symbolic(ctx)
     elif k == 'etype':
         element_types(ctx)
     else:
